@@ -90,7 +90,8 @@ def coq_make(targets, timeout=1500, keep_going=True):
     """make the given .vo targets (paths relative to coq/); full .vo build, never -vos"""
     with Lock('coq'):
         coq_project()
-        cmd = ['make', '-j%d' % NCPU] + (['-k'] if keep_going else []) + list(targets)
+        # every coqc is bounded: a diverging tactic must not hold the shared build lock
+        cmd = ['make', '-j%d' % NCPU, 'COQC=timeout 900 coqc'] + (['-k'] if keep_going else []) + list(targets)
         return sh(cmd, cwd=COQ, timeout=timeout, env={'TIMED': ''})
 
 
